@@ -12,7 +12,7 @@ CONSTANTS
   F = 2
   Tables <- TablesSmall
   MaxBlocks = 2
-  SpaceInsts = {0, 1, 2, 3, 4, 5}
+  SpaceInsts = {0, 1, 3, 4}
   SpaceDeltas <- DeltasSmall
 INVARIANTS ImportIffValid AcceptedIsWellFormed
 CHECK_DEADLOCK FALSE
